@@ -287,7 +287,16 @@ fn fmt(src: &str, path: &Option<PathBuf>, w: usize) -> Result<Result<String, ()>
     }
 }
 
-/// syntactic class predicates (on the CST / token stream of the *input*) that key the class-shaped known findings
+/// syntactic shape labels (on the CST / token stream of the *input*).  They keyed the class-shaped findings of the formatter; every
+/// one of them is repaired, so they are statistics only (`texts_in_known_classes` of the evidence) — `OPEN_CLASSES` lists the labels
+/// that still key an OPEN finding of known_findings.jsonl: texts carrying one of those are not mutated / gap-probed (their static
+/// defect would mask everything else).
+const OPEN_CLASSES: [&str; 0] = [];
+
+fn in_open_class(cs: &[&'static str]) -> bool {
+    cs.iter().any(|c| OPEN_CLASSES.contains(c))
+}
+
 fn classes(p: &Parsed, src: &str) -> Vec<&'static str> {
     use mimium_lang::compiler::parser::green::GreenNode;
     use mimium_lang::compiler::parser::{SyntaxKind, parse_cst, preparse};
@@ -300,17 +309,6 @@ fn classes(p: &Parsed, src: &str) -> Vec<&'static str> {
     let add = |x: &'static str, c: &mut Vec<&'static str>| {
         if !c.contains(&x) {
             c.push(x)
-        }
-    };
-    let is_comment = |k: TokenKind| matches!(k, TokenKind::SingleLineComment | TokenKind::MultiLineComment);
-    // a comment in front of the first token on its line (leading trivia of the first syntax token): printed twice
-    if pre.get_leading_trivia(0, &toks).iter().any(|t| is_comment(t.kind)) {
-        add("first-line-comment", &mut c);
-    }
-    let has_comments = |token_index: usize| -> bool {
-        match pre.token_indices.iter().position(|&x| x == token_index) {
-            Some(i) => pre.get_leading_trivia(i, &toks).iter().chain(pre.get_trailing_trivia(i, &toks).iter()).any(|t| is_comment(t.kind)),
-            None => false,
         }
     };
     while let Some(id) = stack.pop() {
@@ -327,13 +325,6 @@ fn classes(p: &Parsed, src: &str) -> Vec<&'static str> {
                 SyntaxKind::MatchExpr | SyntaxKind::MatchArm | SyntaxKind::MatchArmList => add("match", &mut c),
                 SyntaxKind::RecordPattern => add("record-pattern", &mut c),
                 SyntaxKind::RecordType => add("record-type", &mut c),
-                SyntaxKind::TupleType => {
-                    // `((float), float)`: the parentheses of a parenthesised element are direct children of the TupleType node
-                    let opens = (0..children.len()).filter(|&i| child_tok(i) == Some(TokenKind::ParenBegin)).count();
-                    if opens >= 2 {
-                        add("paren-type-in-tuple-type", &mut c);
-                    }
-                }
                 SyntaxKind::ParamList => {
                     for i in 0..children.len() {
                         if matches!(child_kind(i), Some(SyntaxKind::TypeAnnotation) | Some(SyntaxKind::ParamDefault)) {
@@ -378,16 +369,6 @@ fn classes(p: &Parsed, src: &str) -> Vec<&'static str> {
                     }
                     if elems == 1 && commas >= 1 {
                         add("one-tuple", &mut c);
-                    }
-                    // the comma of `(x,)` carries a comment (print_tuple_expr skips the comma token with its trivia)
-                    if elems == 1 && commas == 1 {
-                        for &ch in children.iter() {
-                            if let GreenNode::Token { token_index, .. } = arena.get(ch) {
-                                if toks[*token_index].kind == TokenKind::Comma && has_comments(*token_index) {
-                                    add("one-tuple-comma-comment", &mut c);
-                                }
-                            }
-                        }
                     }
                 }
                 SyntaxKind::LambdaExpr => {
@@ -596,8 +577,18 @@ pub fn mutate(src: &str, r: &mut Rng, uniq: &mut usize) -> (String, Vec<&'static
         if parts.is_empty() {
             break;
         }
-        let op = r.below(9);
+        let op = r.below(10);
         match op {
+            9 => {
+                // a comment in front of the first token: on its line (block) or on a line of its own (block / line)
+                *uniq += 1;
+                match r.below(3) {
+                    0 => parts.insert(0, (TokenKind::MultiLineComment, format!("/* c{} */ ", uniq))),
+                    1 => parts.insert(0, (TokenKind::MultiLineComment, format!("/* c{} */\n", uniq))),
+                    _ => parts.insert(0, (TokenKind::SingleLineComment, format!("// c{}\n", uniq))),
+                }
+                ops.push("file-start-comment");
+            }
             0 | 1 => {
                 // block comment in a token gap (not directly after `}`, not at file start: see F7/F14)
                 let cands: Vec<usize> = (1..parts.len()).filter(|&i| prev_sig[i].is_some() && !drops_trivia(prev_sig[i])).collect();
@@ -778,6 +769,9 @@ fn gap_sites(src: &str) -> Vec<(usize, Option<usize>)> {
     let toks = tokenize(src);
     let mut v = vec![];
     let n = toks.len();
+    // the gap in front of the first token (offset 0; its "line break" is the start of the file: the own-line variants put the
+    // comment on a line of its own above the first token, the same-line variants on the first token's line)
+    v.push((0, Some(0)));
     for (i, t) in toks.iter().enumerate() {
         if is_trivia_kind(t.kind) || t.kind == TokenKind::Eof {
             continue;
@@ -809,7 +803,10 @@ fn gap_variants(src: &str, site: (usize, Option<usize>), k: usize) -> Vec<(&'sta
     v.push(("B-same", ins(after, &format!(" /* q{k} */ "))));
     match lb {
         Some(l) => {
-            v.push(("L-same", ins(after, &format!(" // q{k}"))));
+            // (in front of the first token a `//` on the same line would comment the first line out)
+            if !(after == 0 && l == 0) {
+                v.push(("L-same", ins(after, &format!(" // q{k}"))));
+            }
             v.push(("B-own", ins(l, &format!("/* q{k} */\n"))));
             v.push(("L-own", ins(l, &format!("// q{k}\n"))));
         }
@@ -825,7 +822,7 @@ fn run_gaps(id: &str, src: &str, path: &Option<PathBuf>, max_gaps: usize, r: &mu
     let p0 = path.clone();
     let ok = std::panic::catch_unwind(move || {
         let b = parse_all(&s0, &p0);
-        b.nerr == 0 && classes(&b, &s0).is_empty()
+        b.nerr == 0 && !in_open_class(&classes(&b, &s0))
     })
     .unwrap_or(false);
     if !ok {
@@ -1151,8 +1148,14 @@ mod progs {
             if d == 0 {
                 return self.r.pick(&["float", "float", "int", "string"]).to_string();
             }
-            match self.r.below(10) {
+            match self.r.below(12) {
                 0 | 1 | 2 => self.r.pick(&["float", "float", "int", "string"]).to_string(),
+                // a parenthesised type `(T)` has no CST node of its own: its parentheses are children of the enclosing tuple /
+                // function / record type (former finding C14-paren-type-in-tuple-type), comments may hang on them
+                10 | 11 => {
+                    let (c1, c2) = (self.cm("("), self.cm(")"));
+                    format!("({c1}{}{c2})", self.ty(d - 1))
+                }
                 3 => format!("({},{}{})", self.ty(d - 1), self.sp(), self.ty(d - 1)),
                 4 | 5 => format!("({}){}->{}{}", self.ty(d - 1), self.sp(), self.sp(), self.ty(d - 1)),
                 6 => format!("({}, {})->{}", self.ty(d - 1), self.ty(d - 1), self.ty(d - 1)),
@@ -1226,8 +1229,17 @@ mod progs {
                     format!("{f}({a})")
                 }
                 8 => {
-                    if self.r.chance(1, 4) {
-                        format!("({}{},{})", self.expr(d - 1, ind), self.sp(), self.sp())      // a one-element tuple
+                    if self.r.chance(1, 3) {
+                        // a one-element tuple, comments before / after its comma (former finding C14-one-tuple-comma-comment)
+                        let e = self.expr(d - 1, ind);
+                        let c1 = self.cm(&e);
+                        let c2 = if self.comments && self.r.chance(1, 4) {
+                            self.uniq += 1;
+                            if self.r.chance(1, 2) { format!(" /* t{} */", self.uniq) } else { format!(" // t{}\n{}", self.uniq, " ".repeat(ind)) }
+                        } else {
+                            String::new()
+                        };
+                        format!("({e}{}{c1},{c2}{})", self.sp(), self.sp())
                     } else {
                         format!("({})", self.expr(d - 1, ind))
                     }
@@ -1246,7 +1258,25 @@ mod progs {
                     let c = self.expr(d - 1, ind);
                     let t = self.expr(d - 1, ind);
                     let e = self.expr(d - 1, ind);
-                    match self.r.below(4) {
+                    match self.r.below(6) {
+                        4 | 5 => {
+                            // a branch without braces that starts with `(` or `[` on a line of its own: on the condition's line the
+                            // parser would read it as a call / an index of the condition (former corpus/C14/todo/if_newline_paren)
+                            let (o, cl) = if self.r.chance(1, 2) { ("(", ")") } else { ("[", "]") };
+                            let c0 = if self.r.chance(1, 3) { self.lit() } else { format!("({c})") };
+                            let pad = " ".repeat(ind + 2);
+                            let cmt = if self.comments && self.r.chance(1, 5) {
+                                self.uniq += 1;
+                                format!(" // i{}", self.uniq)
+                            } else {
+                                String::new()
+                            };
+                            if self.r.chance(1, 2) {
+                                format!("if {c0}{cmt}\n{pad}{o}{t}{cl} else {o}{e}{cl}")
+                            } else {
+                                format!("if {c0}{cmt}\n{pad}{o}{t}{cl}\n{pad}else\n{pad}{o}{e}{cl}")
+                            }
+                        }
                         3 => {
                             // a condition without parentheses (a plain name or literal)
                             let c0 = self.lit();
@@ -1283,7 +1313,8 @@ mod progs {
                     let n = 1 + self.r.below(3) as usize;
                     let mut arms = String::new();
                     for i in 0..n {
-                        let pat = match self.r.below(4) {
+                        let pat = match self.r.below(5) {
+                            4 => format!("({},{}{})", self.id(), self.sp(), self.id()),      // the arm's line starts with `(`
                             0 => format!("One({})", self.id()),
                             1 => format!("Two(({},{}{}))", self.id(), self.sp(), self.id()),
                             2 => "Three".to_string(),
@@ -1335,7 +1366,26 @@ mod progs {
             let mut s = String::new();
             let shapes = 1 + self.r.below(3) as usize;
             for i in 0..shapes {
-                match self.r.below(6) {
+                match self.r.below(10) {
+                    6 => {
+                        // a macro declaration
+                        let a = self.expr(1, 2);
+                        s.push_str(&format!("macro mc{i}(x, y){{\n  {a}\n}}\n"));
+                    }
+                    7 => {
+                        // a one-element tuple and parenthesised types inside tuple / function / record types
+                        let a = self.expr(1, 2);
+                        let t = self.ty(2);
+                        s.push_str(&format!("fn p{i}(f:(({t}), float)->float, r:{{k0:(float), k1:{t}}}){{\n  let t1 = ({a},)\n  t1\n}}\n"));
+                    }
+                    8 | 9 => {
+                        // `if` without braces, the branches on their own lines starting with `(` / `[`
+                        let c = self.expr(1, 2);
+                        let t = self.expr(1, 4);
+                        let e = self.expr(1, 4);
+                        let (o, cl) = if self.r.chance(1, 2) { ("(", ")") } else { ("[", "]") };
+                        s.push_str(&format!("fn q{i}(a, b){{\n  if ({c})\n    {o}{t}{cl}\n  else\n    {o}{e}{cl}\n}}\n"));
+                    }
                     0 => {
                         let c = self.expr(1, 2);
                         let t = self.expr(1, 4);
@@ -1368,7 +1418,28 @@ mod progs {
         }
         pub fn program(&mut self) -> String {
             let mut s = String::new();
+            // comments before the first token of the file: on lines of their own (attached to no token by the preparser) and / or on
+            // the line of the first token (its leading trivia; former finding C14-first-line-comment)
+            if self.comments {
+                for _ in 0..self.r.below(3) {
+                    self.uniq += 1;
+                    match self.r.below(4) {
+                        0 => s.push_str(&format!("// h{}\n", self.uniq)),
+                        1 => s.push_str(&format!("/* h{} */\n", self.uniq)),
+                        2 => s.push_str(&format!("/* h{}\n   more */ ", self.uniq)),
+                        _ => {
+                            let (a, b, u) = (self.sp(), self.sp(), self.uniq);
+                            s.push_str(&format!("{a}/* h{u} */{b}"))
+                        }
+                    }
+                }
+            }
             // type declarations (the variant type the `match` arms refer to, aliases, recursive types)
+            if self.r.chance(1, 6) {
+                // the first token of the file is the `{` of a block / a `(` / a name instead of `type`
+                let e = self.expr(1, 0);
+                s.push_str(&format!("{}\n", match self.r.below(3) { 0 => format!("{{ {e} }}"), 1 => format!("({e})"), _ => e }));
+            }
             s.push_str("type E = One(float) | Two((float,float)) | Three\n");
             if self.r.chance(1, 3) {
                 s.push_str(&format!("type alias Freq{}={}{}\n", self.sp(), self.sp(), self.ty(1)));
@@ -1379,7 +1450,15 @@ mod progs {
             let n = 1 + self.r.below(4) as usize;
             for i in 0..n {
                 let d = 1 + self.r.below(4) as usize;
-                if self.r.chance(1, 2) {
+                if self.r.chance(1, 8) {
+                    // a macro declaration: a function declaration introduced by `macro`
+                    let np = self.r.below(3) as usize;
+                    let ps: Vec<String> = (0..np).map(|_| format!("{}{}", self.id(), self.opt_ann())).collect();
+                    let body = self.stmts(d.min(2), 2);
+                    let ret = self.opt_ret();
+                    let vis = if self.r.chance(1, 4) { "pub " } else { "" };
+                    s.push_str(&format!("{vis}macro{}mc{i}({}){ret}{}{{\n{body}}}\n", if self.r.chance(1, 3) { "  " } else { " " }, ps.join(", "), self.sp()));
+                } else if self.r.chance(1, 2) {
                     let np = self.r.below(4) as usize;
                     // parameters: name, optional type annotation, optional default value
                     let ps: Vec<String> = (0..np)
@@ -1610,7 +1689,7 @@ fn main() {
                 let s0 = src.clone();
                 let ok = std::panic::catch_unwind(move || {
                     let b = parse_all(&s0, &p0);
-                    b.nerr == 0 && classes(&b, &s0).is_empty()
+                    b.nerr == 0 && !in_open_class(&classes(&b, &s0))
                 })
                 .unwrap_or(false);
                 if !ok {
